@@ -82,6 +82,7 @@ func runC10(c *Collector, r *Rng, thorough bool) {
 				par := parentOf(pv, ptr)
 				// full
 				cs := &cose.Countersignature{Headers: genGoHeaders(r, BucketCfg{Max: 3}, -7, true, r.Chance(1, 4))}
+				typedHolder := len(cs.Headers.RawProtected) == 0 && cs.Headers.Protected != nil
 				sg := &spySigner{alg: -7, kind: SOk, sig: genSigBytes(r)}
 				op, obs, err, p := execCsign(cs, sg, par, ext)
 				if p {
@@ -101,6 +102,29 @@ func runC10(c *Collector, r *Rng, thorough bool) {
 					addCase(c, fmt.Sprintf("cverify/%T", par.val), op, obs, true)
 					if len(vf.calls) != 1 || !bytes.Equal(vf.calls[0].content, sg.calls[0]) {
 						c.Fail("C10/sign-verify-differ", "Verify does not hand the verifier the bytes that were signed (pointer vs value parent)", map[string]any{"op": trunc(op, 700)})
+					}
+				}
+				// the holder used again (a timestamping service keeps one holder per policy: signature cleared, a
+				// parameter of the protected bucket replaced): the second signature is over the bucket as it is now
+				if err == nil && typedHolder && ptr {
+					cs.Signature = nil
+					cs.Headers.Protected[int64(4)] = []byte(fmt.Sprintf("kid-%d", i))
+					cs.Headers.Protected[int64(-70030)] = int64(i)
+					sgb := &spySigner{alg: -7, kind: SOk, sig: genSigBytes(r)}
+					c.Eval("csign/holder-reused", fmt.Sprintf("%T %d", par.val, i), true)
+					if err := cs.Sign(r, sgb, par.val, ext); err == nil && len(sgb.calls) == 1 {
+						fresh := cose.Headers{Protected: cs.Headers.Protected}
+						sp, _ := refProtectedBstr(&fresh)
+						want, rerr := refCountersign(false, par.val, sp, ext)
+						if rerr == nil && !bytes.Equal(want, sgb.calls[0]) {
+							c.Fail("C10/structure", fmt.Sprintf("a holder signed a second time after its protected bucket was edited: countersigner got %x, RFC 9338 structure over the holder's current protected bucket is %x", sgb.calls[0], want), map[string]any{"parent": fmt.Sprintf("%T", par.val), "holder_protected": cOptMap(map[any]any(cs.Headers.Protected), false)})
+						}
+						// and what the holder then emits carries that bucket
+						if out, merr := cs.MarshalCBOR(); merr == nil {
+							if w, perr := refParseFull(out); perr == nil && len(w.Kids) == 3 && !bytes.Equal(w.Kids[0].Ser(), sp) {
+								c.Fail("C10/structure", fmt.Sprintf("a holder signed a second time after its protected bucket was edited emits protected bytes %x; its protected bucket encodes to %x", w.Kids[0].Ser(), sp), map[string]any{"parent": fmt.Sprintf("%T", par.val)})
+							}
+						}
 					}
 				}
 				// abbreviated
@@ -920,6 +944,7 @@ func runC11(c *Collector, r *Rng, thorough bool) {
 		}
 	}
 	c11MalformedVerifierKey(c, r)
+	c11Positional(c, r)
 }
 
 // c11MalformedVerifierKey: a verifier built from a malformed EdDSA public key (wrong length: NewVerifier looks at
@@ -1493,6 +1518,82 @@ func runC20(c *Collector, r *Rng, thorough bool) {
 			}
 		}
 	}
+	// ---- a key that works and is then withdrawn (revoked in the HSM, session expired): every request made afterwards
+	// fails - also a request to sign the very bytes it signed a moment ago; nothing signed earlier stands in ----
+	{
+		kr2 := NewRng(4344)
+		ek2, _ := ecdsa.GenerateKey(elliptic.P256(), kr2)
+		_, ed2, _ := ed25519.GenerateKey(kr2)
+		rk2, _ := realKeySet(r)[4].priv.(*rsa.PrivateKey)
+		for _, kc := range []struct {
+			name string
+			alg  cose.Algorithm
+			key  crypto.Signer
+		}{{"PS256", cose.AlgorithmPS256, rk2}, {"ES256", cose.AlgorithmES256, ek2}, {"EdDSA", cose.AlgorithmEdDSA, ed2}} {
+			if kc.key == nil || (kc.name == "PS256" && rk2 == nil) {
+				continue
+			}
+			rv := &revocableSigner{real: kc.key}
+			signer, err := cose.NewSigner(kc.alg, rv)
+			if err != nil {
+				continue
+			}
+			rep := map[string]any{"alg": kc.name}
+			calls := []struct {
+				name string
+				run  func() (bool, error)
+			}{
+				{"Sign1Message.Sign", func() (bool, error) {
+					m := &cose.Sign1Message{Headers: hdr(kc.alg), Payload: []byte("p")}
+					e := m.Sign(r, nil, signer)
+					_, me := m.MarshalCBOR()
+					return len(m.Signature) > 0 || me == nil, e
+				}},
+				{"Sign1", func() (bool, error) {
+					out, e := cose.Sign1(r, signer, hdr(kc.alg), []byte("p"), nil)
+					return out != nil, e
+				}},
+				{"SignMessage.Sign", func() (bool, error) {
+					sm := &cose.SignMessage{Headers: cose.Headers{}, Payload: []byte("p"), Signatures: []*cose.Signature{{Headers: hdr(kc.alg)}}}
+					e := sm.Sign(r, nil, signer)
+					_, me := sm.MarshalCBOR()
+					return len(sm.Signatures[0].Signature) > 0 || me == nil, e
+				}},
+				{"Countersign0", func() (bool, error) {
+					out, e := cose.Countersign0(r, signer, &cose.Sign1Message{Headers: hdr(kc.alg), Payload: []byte("p"), Signature: []byte{1}}, nil)
+					return len(out) > 0, e
+				}},
+				{"SignHashEnvelope", func() (bool, error) {
+					out, e := cose.SignHashEnvelope(r, signer, hdr(kc.alg), cose.HashEnvelopePayload{HashAlgorithm: cose.AlgorithmSHA256, HashValue: make([]byte, 32)})
+					return out != nil, e
+				}},
+				{"Signer.Sign", func() (bool, error) {
+					out, e := signer.Sign(r, []byte("the same content"))
+					return len(out) > 0, e
+				}},
+			}
+			for _, cl := range calls {
+				rv.revoked = false
+				if usable, e := cl.run(); e != nil || !usable {
+					continue
+				}
+				rv.revoked = true
+				rv.calls = 0
+				var usable bool
+				var cerr error
+				if p, _ := protect(func() { usable, cerr = cl.run() }); p {
+					c.Fail("C20/panic", cl.name+" panicked on a key that was withdrawn", rep)
+					continue
+				}
+				c.Eval("withdrawn-key/"+kc.name, cl.name, true)
+				if cerr == nil || usable {
+					c.Fail("C20/signer-error-swallowed", fmt.Sprintf("%s: the key refuses every request since it was withdrawn; asked to sign the same content as a moment before, the call returned err=%v and a usable result=%v (the key was asked %d times)", cl.name, cerr, usable, rv.calls), rep)
+				} else if !errors.Is(cerr, errScripted) {
+					c.Fail("C20/signer-error-replaced", fmt.Sprintf("%s: the key's error was not returned: %v", cl.name, cerr), rep)
+				}
+			}
+		}
+	}
 	// ---- entropy failures with real keys ----
 	kr := NewRng(99)
 	ek, _ := ecdsa.GenerateKey(elliptic.P256(), kr)
@@ -1673,4 +1774,183 @@ func stripBstrHead(b []byte) []byte {
 		return nil
 	}
 	return w.Str
+}
+
+// c11Positional: several signers of ONE algorithm, each with a key of its own. The message verifies with the verifiers
+// in signer order and with no other assignment: verifiers swapped, one key offered for every position, a correct key at
+// a position other than its own - all refused; a refusing verifier at one position is never made good by asking the
+// verifier of another position (recording verifiers: each is asked once, about its own signer). And the verdict is
+// about the signature bytes the message holds now: a signature edited after a successful verification is refused.
+func c11Positional(c *Collector, r *Rng) {
+	type kp struct {
+		alg    cose.Algorithm
+		name   string
+		signer []cose.Signer
+		verif  []cose.Verifier
+	}
+	var sets []kp
+	for _, ci := range curves {
+		s := kp{alg: ci.alg, name: ci.name}
+		for j := 0; j < 3; j++ {
+			k, err := ecdsa.GenerateKey(ci.curve, r)
+			if err != nil {
+				return
+			}
+			sg, _ := cose.NewSigner(ci.alg, k)
+			vf, _ := cose.NewVerifier(ci.alg, &k.PublicKey)
+			s.signer, s.verif = append(s.signer, sg), append(s.verif, vf)
+		}
+		sets = append(sets, s)
+	}
+	{
+		s := kp{alg: cose.AlgorithmEdDSA, name: "Ed25519"}
+		for j := 0; j < 3; j++ {
+			pub, priv, _ := ed25519.GenerateKey(r)
+			sg, _ := cose.NewSigner(cose.AlgorithmEdDSA, priv)
+			vf, _ := cose.NewVerifier(cose.AlgorithmEdDSA, pub)
+			s.signer, s.verif = append(s.signer, sg), append(s.verif, vf)
+		}
+		sets = append(sets, s)
+	}
+	for _, s := range sets {
+		for n := 2; n <= 3; n++ {
+			for _, sameHeaders := range []bool{true, false} {
+				m := &cose.SignMessage{Headers: cose.Headers{Protected: cose.ProtectedHeader{int64(4): []byte("body")}}, Payload: []byte("payload")}
+				for j := 0; j < n; j++ {
+					h := cose.Headers{Protected: cose.ProtectedHeader{cose.HeaderLabelAlgorithm: s.alg}}
+					if !sameHeaders {
+						h.Protected[int64(4)] = []byte(fmt.Sprintf("signer-%d", j))
+					}
+					m.Signatures = append(m.Signatures, &cose.Signature{Headers: h})
+				}
+				ext := []byte("ext")
+				if err := m.Sign(r, ext, s.signer[:n]...); err != nil {
+					continue
+				}
+				rep := map[string]any{"alg": s.alg.String(), "signers": n, "same_signer_headers": sameHeaders}
+				c.Eval("positional/"+s.name, fmt.Sprint(n, sameHeaders), true)
+				if err := m.Verify(ext, s.verif[:n]...); err != nil {
+					c.Fail("C11/valid-refused", "COSE_Sign with one key per signer (one algorithm) does not verify with the verifiers in signer order: "+err.Error(), rep)
+					continue
+				}
+				// every other assignment of the n keys to the n positions
+				var assign func(prefix []int)
+				assign = func(prefix []int) {
+					if len(prefix) == n {
+						inOrder := true
+						for i, v := range prefix {
+							if v != i {
+								inOrder = false
+							}
+						}
+						if inOrder {
+							return
+						}
+						var vs []cose.Verifier
+						for _, v := range prefix {
+							vs = append(vs, s.verif[v])
+						}
+						if err := m.Verify(ext, vs...); err == nil {
+							rep2 := map[string]any{"alg": s.alg.String(), "signers": n, "verifier_for_each_position": fmt.Sprint(prefix)}
+							c.Fail("C11/accepted-reordered", fmt.Sprintf("COSE_Sign verified although position i was offered the key of signer %v[i]", prefix), rep2)
+						}
+						return
+					}
+					for v := 0; v < 3; v++ {
+						assign(append(append([]int{}, prefix...), v))
+					}
+				}
+				assign(nil)
+				// decoded from the wire: the same
+				if b, err := m.MarshalCBOR(); err == nil {
+					var back cose.SignMessage
+					if back.UnmarshalCBOR(b) == nil {
+						vs := append([]cose.Verifier{}, s.verif[:n]...)
+						vs[0], vs[1] = vs[1], vs[0]
+						if back.Verify(ext, vs...) == nil {
+							c.Fail("C11/accepted-reordered", "a decoded COSE_Sign verified with the first two verifiers swapped", map[string]any{"alg": s.alg.String(), "data": hx(b)})
+						}
+					}
+				}
+				// a signature edited after the message verified
+				for j := 0; j < n; j++ {
+					if m.Verify(ext, s.verif[:n]...) != nil {
+						break
+					}
+					keep := append([]byte{}, m.Signatures[j].Signature...)
+					m.Signatures[j].Signature[len(keep)/2] ^= 0x10
+					err1 := m.Verify(ext, s.verif[:n]...)
+					m.Signatures[j].Signature = append([]byte{}, keep...)
+					m.Signatures[j].Signature[0] ^= 0x01
+					err2 := m.Verify(ext, s.verif[:n]...)
+					m.Signatures[j].Signature = keep
+					c.Eval("edited-after-verify/"+s.name, fmt.Sprint(n, j, sameHeaders), true)
+					if err1 == nil || err2 == nil {
+						c.Fail("C11/accepted-tampered", fmt.Sprintf("signature %d of %d was edited after the message had verified; verifying again returned nil", j, n), rep)
+					}
+					// and a payload edited after the message verified
+					m.Payload = []byte("Payload")
+					err3 := m.Verify(ext, s.verif[:n]...)
+					m.Payload = []byte("payload")
+					if err3 == nil {
+						c.Fail("C11/accepted-tampered", "the payload was replaced after the message had verified; verifying again returned nil", rep)
+					}
+				}
+			}
+		}
+	}
+	// recording verifiers: one refuses, the others accept
+	for n := 2; n <= 4; n++ {
+		for bad := 0; bad < n; bad++ {
+			for _, refusal := range []error{cose.ErrVerification, errScripted} {
+				m := &cose.SignMessage{Headers: cose.Headers{Protected: cose.ProtectedHeader{}}, Payload: []byte("payload")}
+				var vfs []*spyVerifier
+				for j := 0; j < n; j++ {
+					m.Signatures = append(m.Signatures, &cose.Signature{Headers: cose.Headers{Protected: cose.ProtectedHeader{cose.HeaderLabelAlgorithm: cose.AlgorithmES256, int64(4): []byte{byte(j)}}}, Signature: []byte{byte(j + 1)}})
+					v := &spyVerifier{alg: -7}
+					if j == bad {
+						v.err = refusal
+					}
+					vfs = append(vfs, v)
+				}
+				op, obs, verr, p := execVerifyMsg(m, []byte("x"), vfs)
+				if p {
+					c.Fail("C11/panic", "Verify panicked", map[string]any{"op": trunc(op, 400)})
+					continue
+				}
+				addCase(c, "one-refusing-verifier", op, obs, true)
+				rep := map[string]any{"signers": n, "refusing_position": bad, "refusal": fmt.Sprint(refusal)}
+				if verr == nil {
+					c.Fail("C11/accepted-failing", "COSE_Sign verified although the verifier at one position refused", rep)
+				}
+				for j, v := range vfs {
+					want, _ := refSigN(&m.Headers, &m.Signatures[j].Headers, []byte("x"), m.Payload)
+					for _, cl := range v.calls {
+						if !bytes.Equal(cl.content, want) || !bytes.Equal(cl.sig, m.Signatures[j].Signature) {
+							c.Fail("C11/own-structure", fmt.Sprintf("the verifier at position %d was asked about a signer other than its own (signature %x)", j, cl.sig), rep)
+						}
+					}
+					if len(v.calls) > 1 {
+						c.Fail("C11/own-structure", fmt.Sprintf("the verifier at position %d was asked %d times", j, len(v.calls)), rep)
+					}
+				}
+			}
+		}
+	}
+}
+
+// revocableSigner: a real key behind a crypto.Signer that refuses every request once it has been withdrawn
+type revocableSigner struct {
+	real    crypto.Signer
+	revoked bool
+	calls   int
+}
+
+func (f *revocableSigner) Public() crypto.PublicKey { return f.real.Public() }
+func (f *revocableSigner) Sign(rnd io.Reader, digest []byte, opts crypto.SignerOpts) ([]byte, error) {
+	f.calls++
+	if f.revoked {
+		return nil, errScripted
+	}
+	return f.real.Sign(rnd, digest, opts)
 }
